@@ -880,6 +880,16 @@ func (x *Exec) applyPure(env *Env, pf *PureFunc, recv *Val, args []*SExpr) Val {
 		argVals = append(argVals, v)
 	}
 	opaque := pf.BVOnly && !x.tc.bv
+	if pf.Opaque {
+		opaque = true
+		if x.fc != nil {
+			for _, r := range x.fc.Reveals {
+				if r == pf.Name {
+					opaque = false
+				}
+			}
+		}
+	}
 	if pf.Abstract || pf.Rec || opaque {
 		var targs []*Term
 		for _, v := range argVals {
